@@ -342,6 +342,10 @@ fn scenario(ctx: &Ctx, idx: u64) -> Report {
     })
 }
 
+pub fn scenario_pub(ctx: &Ctx, idx: u64) -> Report {
+    scenario(ctx, idx)
+}
+
 pub fn check(tier: Tier) -> Check {
     Check {
         id: "C15",
